@@ -271,8 +271,20 @@ class EvolveAppTask(BaseEvolutionTask):
                         task_sql = task_info.get('sql')
 
                         if task_sql:
+                            # Only the evolutions in this batch are being
+                            # applied. The rest of the task's evolutions
+                            # may be in other batches.
+                            batch_labels = set(task_info.get('evolutions',
+                                                             []))
+                            batch_evolutions = [
+                                _evolution
+                                for _evolution in task.new_evolutions
+                                if _evolution.label in batch_labels
+                            ]
+
                             task.execute(sql_executor=sql_executor,
                                          sql=task_sql,
+                                         evolutions=batch_evolutions or None,
                                          **kwargs)
             elif batch_type == UpgradeMethod.MIGRATIONS:
                 assert migrating
